@@ -59,7 +59,29 @@ def norm_term(e, al):
     return src(e2).replace('__', '.')
 
 
-def order_at(fn, al, target):
+def _property_facts(cls_node, name):
+    """For a private property of the class that answers a range question (`self._is_identity`): the (comparison, truth, aliases) facts that hold whenever it is
+    True - the tests on the one path that can return something else than False, and the conjuncts of what that path returns."""
+    if cls_node is None:
+        return []
+    props = [d for d in cls_node.body if isinstance(d, ast.FunctionDef) and d.name == name and any(src(x) in ('property', 'cached_property', 'functools.cached_property') for x in d.decorator_list)]
+    if len(props) != 1:
+        return []
+    cand = [(f_, r_) for f_, r_ in path_returns(props[0]) if not (isinstance(r_, ast.Constant) and r_.value is False)]
+    if len(cand) != 1:
+        return []
+    al2 = range_aliases(props[0])
+    out = []
+    for text, val in cand[0][0].items():
+        try:
+            out.append((ast.parse(text, mode='eval').body, val, al2))
+        except SyntaxError:
+            pass
+    out.append((cand[0][1], True, al2))
+    return out
+
+
+def order_at(fn, al, target, cls_node=None):
     '''Order closure of the facts common to all paths reaching `target`, plus lo<=hi for every range term.'''
     ps = paths_to(fn, lambda s: s is target)
     if not ps:
@@ -72,7 +94,12 @@ def order_at(fn, al, target):
         for e in p.events[:idx]:
             if e.kind != 'cond':
                 continue
-            for node, val in decompose(e.node, e.data[0]):
+            items = [(n_, v_, al) for n_, v_ in decompose(e.node, e.data[0])]
+            for n_, v_, _ in list(items):
+                if v_ and isinstance(n_, ast.Attribute) and src(n_.value) == 'self' and n_.attr.startswith('_'):
+                    for pn, pv, pal in _property_facts(cls_node, n_.attr):
+                        items += [(x_, y_, pal) for x_, y_ in decompose(pn, pv)]
+            for node, val, al_ in items:
                 if isinstance(node, ast.Compare) and len(node.ops) > 1 and val:
                     ops_ = [node.left] + list(node.comparators)
                     parts = [ast.Compare(left=a, ops=[op], comparators=[b]) for a, op, b in zip(ops_, node.ops, ops_[1:])]
@@ -81,8 +108,8 @@ def order_at(fn, al, target):
                 for part in parts:
                     c = as_compare(part, val)
                     if c and c[1] in ('<', '<=', '>', '>=', '=='):
-                        a = norm_term(part.left if isinstance(part, ast.Compare) else part.args[0], al)
-                        b = norm_term(part.comparators[0] if isinstance(part, ast.Compare) else part.args[1], al)
+                        a = norm_term(part.left if isinstance(part, ast.Compare) else part.args[0], al_)
+                        b = norm_term(part.comparators[0] if isinstance(part, ast.Compare) else part.args[1], al_)
                         o.add(a, c[1], b)
                         for t in (a, b):
                             if t.endswith(('.lo', '.hi')):
@@ -96,7 +123,8 @@ def order_at(fn, al, target):
 
 
 def require(rep, f, target, al, needs, what, rule='R06.1', finite=()):
-    orders = order_at(f.node, al, target)
+    cls_node = next((c_ for c_ in ast.walk(f.module.tree) if isinstance(c_, ast.ClassDef) and any(d_ is f.node for d_ in c_.body)), None)
+    orders = order_at(f.node, al, target, cls_node)
     missing = []
     for o, isint in orders:
         for a, op, b in needs:
@@ -417,6 +445,27 @@ TRANSFER_SPECS = {
 SMALL_RANGES = ((0, 0), (1, 1), (-1, -1), (0, 2), (-2, 3), (2, 4), (-3, -1), (1, 3))
 
 
+from sa.miniexec import Sym as _Sym
+
+
+class _SelfWithProperties(_Sym):
+    """The abstract node handed to an interpreted `_intbounds_impl`: the operand fields, and private properties of the class interpreted on demand."""
+
+    def __init__(self, model, cls_key, ex, attrs):
+        self.__dict__.update(attrs)
+        self.__dict__['_SelfWithProperties__ctx'] = (model, cls_key, ex)
+
+    def __getattr__(self, name):
+        from sa.miniexec import Closure
+        model, cls_key, ex = self.__dict__['_SelfWithProperties__ctx']
+        c = model.classes.get(cls_key)
+        mem = c.members.get(name) if c is not None else None
+        if name.startswith('_') and not name.startswith('__') and mem is not None and mem.func is not None and not isinstance(mem.func.node, ast.Lambda) \
+                and any(src(d) in ('property', 'cached_property', 'functools.cached_property') for d in mem.func.node.decorator_list):
+            return Closure(mem.func.node, ex)(self)
+        raise AttributeError(name)
+
+
 def check_transfer_sound(model, rep, rule='R06.4'):
     """R06.4 (soundness by interpretation): for the nodes whose integer semantics is a plain function of their operands, `_intbounds_impl` is interpreted
     (sa.miniexec) for every combination of small operand ranges, and the announced range must contain every value the node takes on valid operand values
@@ -440,7 +489,8 @@ def check_transfer_sound(model, rep, rule='R06.4'):
                 operands = [Sym(_intbounds=r, dtype=int) for r in ranges]
                 attrs = dict(zip(fields, operands)) if isinstance(fields, tuple) else {fld_: tuple(operands) for fld_ in fields}
                 base = Sym(_intbounds_impl=lambda: (-inf, inf))
-                ex = MiniExec({'self': Sym(**attrs), 'numpy': numpy_, 'min': min, 'max': max, 'super': (lambda base=base: base), 'int': int, 'bool': bool})
+                ex = MiniExec({'numpy': numpy_, 'min': min, 'max': max, 'super': (lambda base=base: base), 'int': int, 'bool': bool})
+                ex.env['self'] = _SelfWithProperties(model, f'evaluable:{cname}', ex, attrs)
                 try:
                     ex.run(f.node.body)
                     got = None
